@@ -255,6 +255,9 @@ func runPlan(c *core.Ctx, p Plan, tlcWorkers, replayPar int) (*outcome, error) {
 	if p.Live {
 		return runLive(c, p, tlcWorkers)
 	}
+	if p.PropsOnly {
+		return runProps(c, p, tlcWorkers)
+	}
 	g, err := Generate(p, tlcWorkers)
 	if err != nil {
 		return nil, err
@@ -405,6 +408,20 @@ var monitorText = map[string]string{
 	"K5_Stuck":       "a fault-free poll makes no progress although final blocks are left",
 }
 
+// planRank: the example of an observation is taken from the most ordinary plan that shows it.
+var planRank = map[string]int{"part": 0, "pos": 1, "faults": 2, "live": 2, "fork": 3, "gap": 4, "deploy10": 5, "deploy01": 5, "deploy21": 5, "classes": 6, "huge": 7, "wrap": 8}
+
+func better(a, b *Finding) bool {
+	ra, rb := planRank[a.Plan.Name], planRank[b.Plan.Name]
+	if ra != rb {
+		return ra < rb
+	}
+	if a.Pos != b.Pos {
+		return a.Pos < b.Pos
+	}
+	return len(a.run.Beh) < len(b.run.Beh)
+}
+
 // Check runs the stage (a growth stage of ./check C15).
 func Check(c *core.Ctx) int {
 	say := func(format string, a ...any) { fmt.Printf(format, a...) }
@@ -499,7 +516,13 @@ func Check(c *core.Ctx) int {
 		drift += o.driftN
 		if o.driftN > 0 {
 			dl := o.drift[0]
-			say("DRIFT stage=chainobs plan=%s: %d lines are not what the code-shaped spec %+v yields; first: run=%d pos=%d line=%s\n", p.Name, o.driftN, p.M, dl.Run, dl.Pos, brief(dl.J))
+			bt := ""
+			for _, r := range o.runs {
+				if r.No == dl.Run {
+					bt = behText(p, r.Beh, dl.Pos)
+				}
+			}
+			say("DRIFT stage=chainobs plan=%s: %d lines are not what the code-shaped spec %+v yields; first: run=%d pos=%d after: %s line=%s\n", p.Name, o.driftN, p.M, dl.Run, dl.Pos, bt, brief(dl.J))
 		}
 		for fi := range o.findings {
 			f := &o.findings[fi]
@@ -518,7 +541,7 @@ func Check(c *core.Ctx) int {
 			if f.Predicted {
 				g.Predicted++
 			}
-			if g.best == nil || f.Pos < g.best.Pos || (f.Pos == g.best.Pos && len(f.run.Beh) < len(g.best.run.Beh)) {
+			if g.best == nil || better(f, g.best) {
 				g.best = f
 			}
 		}
@@ -540,8 +563,8 @@ func Check(c *core.Ctx) int {
 			pl = append(pl, fmt.Sprintf("%s=%d", n, k))
 		}
 		sort.Strings(pl)
-		say("OBSERVATION chainobs: %s (%s): %d observed lines in %d replayed behaviours (%s); %d of them conform to the as-found spec, %d in behaviours where TLC predicted it; shortest: %s replay=%s\n",
-			g.Monitor, monitorText[g.Monitor], g.Count, g.Runs, strings.Join(pl, " "), g.Conform, g.Predicted, g.Shortest, g.Replay)
+		say("OBSERVATION chainobs: %s (%s): %d observed lines in %d replayed behaviours (%s), %d of them are what the as-found spec yields; shortest: %s replay=%s\n",
+			g.Monitor, monitorText[g.Monitor], g.Count, g.Runs, strings.Join(pl, " "), g.Conform, g.Shortest, g.Replay)
 	}
 	var obsAny []any
 	for _, g := range groups {
